@@ -1,5 +1,5 @@
 """C18 — WebSocket framing round-trips and reassembles under any segmentation (DESIGN.md §2 C18)."""
-from ..cfg import search, witness_str, dominated_by_edge, elem_dominates
+from ..cfg import search, witness_str, dominated_by_edge, elem_dominates, dominators
 from ..expr import show, walk, last, field_of, strip_wrappers, strip_casts, short, const_value, is_assign, assign_parts as _ap, strip_views
 from ..facts import AnalysisBroken
 from ..finite import dominating_facts, flatten_fact
@@ -618,9 +618,22 @@ def grow_sites(f, fields):
     return out
 
 
+def shown(f, n, depth=0):
+    """show(n) followed by the initialisers of the const locals it reads (`const size_t limit = _options.maxFrameSize; if (x > limit)` reads the
+    configured maximum just as `if (x > _options.maxFrameSize)` does) — for rules that recognise a quantity by the declaration it comes from"""
+    out = show(n)
+    if depth < 2:
+        for x in walk(n):
+            if x.get("k") == "var" and x.get("parm") is None:
+                _e, v = _decl_of(f, x.get("d"))
+                if v is not None and (v.get("t") or "").startswith("const ") and v.get("init") is not None:
+                    out += " «" + shown(f, v["init"], depth + 1) + "»"
+    return out
+
+
 def limit_blocks(f, limit_words):
     """blocks of the limit test: the comparison against the configured maximum and the other conjuncts on the same quantity"""
-    core = [b for b in f.blocks.values() if b.cond is not None and common.cmp_parts(b.cond) and common.cmp_parts(b.cond)[0] in (">", ">=") and any(w in show(b.cond) for w in limit_words)]
+    core = [b for b in f.blocks.values() if b.cond is not None and common.cmp_parts(b.cond) and common.cmp_parts(b.cond)[0] in (">", ">=") and any(w in shown(f, b.cond) for w in limit_words)]
     qty = set()
     for b in core:
         for x in walk(common.cmp_parts(b.cond)[1]):
@@ -637,7 +650,7 @@ def limit_blocks(f, limit_words):
         if a and key_of(a[0]):
             cands.append((key_of(a[0]), a[1]))
         for (nme, rhs) in cands:
-            if any(common.cmp_parts(x) and common.cmp_parts(x)[0] in (">", ">=") and any(w in show(x) for w in limit_words) for x in walk(rhs)):
+            if any(common.cmp_parts(x) and common.cmp_parts(x)[0] in (">", ">=") and any(w in shown(f, x) for w in limit_words) for x in walk(rhs)):
                 flags.add(nme)
     fl = [b for b in f.blocks.values() if b.cond is not None and b not in core and b not in more and any(x.get("k") == "var" and x["n"] in flags for x in walk(b.cond))]
     return core + more + fl
@@ -763,11 +776,18 @@ def r3(ctx, r):
         r.instance()
         if len(flags) > 1:
             raise AnalysisBroken("%s: %d bool locals lead to the 1009 close (%s)" % (last(f.name), len(flags), flags))
-        if not flags:
-            r.fail(f, None, "overflow reaction: %s" % label, "%s has no overflow flag/reaction for the %s" % (short(f.name), label))
-            continue
         term = [e for e in f.stmts() if (e.node.get("k") == "mcall" and last(e.node.get("callee", "")) in ("closeSession", "disconnect", "erase", "clear") and
                                          (last(e.node.get("callee", "")) in ("closeSession", "disconnect") or "_sessions" in show(e.node.get("obj") or {}) or "ragmentBuffer" in show(e.node.get("obj") or {})))]
+        if not flags:
+            # no flag: the reaction sits on the `limit exceeded` edge itself — every way from that edge to the exit ends the session
+            core = [b for b in f.blocks.values() if b.cond is not None and common.cmp_parts(b.cond) and common.cmp_parts(b.cond)[0] in (">", ">=") and "axFrameSize" in shown(f, b.cond) and
+                    b.edge_label(0) is True and b.succs[0] is not None]
+            enders = [e for e in term if last(e.node.get("callee", "")) in ("closeSession", "disconnect")]
+            okr = bool(core) and bool(react) and all(search(f, ("block", b.succs[0]), "exit", stop=lambda x: x in enders, eh=False) is None for b in core)
+            r.expect(okr, f, react[0] if react else None, "overflow reaction: %s" % label, "after the %s exceeded its limit %s can return without ending the session (closeSession/disconnect)%s: the buffer is kept and "
+                     "every further CONTINUATION frame grows it again — unbounded buffering for a peer that ignores the 1009 close" % (label, short(f.name), "" if core and react else " — no limit comparison / 1009 reaction found"),
+                     okdesc="%s overflow → session ended (on the limit-exceeded edge)" % label)
+            continue
         vocab = Vocab(["big", "done"])
 
         def leaf(n, flag=flag):
@@ -937,11 +957,53 @@ def r5(ctx, r):
     for cls, file, label in ((WS, WSF, "server"), (WC, WCF, "client")):
         hf = fnc(ctx, cls, "handleFrame", file)
         sw = [b for b in hf.blocks.values() if b.term and b.term.get("k") == "SwitchStmt"]
-        if len(sw) != 1:
+        if len(sw) > 1:
             raise AnalysisBroken("%s handleFrame: %d switches" % (label, len(sw)))
-        sw = sw[0]
         arms = {}
-        for si in range(len(sw.succs)):
+        if not sw:
+            # the dispatch written as an if-chain over the frame's opcode (or a const local holding it): the arm of an enumerator is what is
+            # reachable from the edge on which `opcode == E` holds (the false edge of `opcode != E`), up to the next return
+            fpn = frame_param(hf)
+
+            def is_opc(n):
+                n = strip_casts(n)
+                if n is None:
+                    return False
+                if n.get("k") == "var" and n.get("parm") is None:
+                    _e, v = _decl_of(hf, n.get("d"))
+                    return v is not None and (v.get("t") or "").startswith("const ") and v.get("init") is not None and is_opc(v["init"])
+                return n.get("k") == "member" and n.get("n") == WF + "::opcode" and show(strip_casts(n.get("b"))) == fpn
+            chain = []
+            for b in hf.blocks.values():
+                if b.cond is None or len(b.succs) != 2 or b.edge_label(0) is not True:
+                    continue
+                for (op, l, rr) in common.cmp_both(strip_casts(b.cond)):
+                    e_ = strip_casts(rr)
+                    if op in ("==", "!=") and is_opc(l) and e_ is not None and e_.get("k") == "enum" and e_["n"].startswith(OPC + "::"):
+                        chain.append((b, last(e_["n"]), op))
+                        break
+            if not chain:
+                raise AnalysisBroken("%s handleFrame: neither a switch nor an if-chain over the frame's opcode" % label)
+            for (b, en, op) in chain:
+                side = b.succs[0] if op == "==" else b.succs[1]
+                if side is not None:
+                    arms.setdefault(en, [])
+                    arms[en] += [x for x in _reach_until_ret(hf, side) if x not in arms[en]]
+            # no enumerator matches: follow only the non-matching edges
+            seen, work, dflt = set(), [hf.entry], []
+            cb = {b.id: (b.succs[1] if op == "==" else b.succs[0]) for (b, en, op) in chain}
+            while work:
+                bid = work.pop()
+                if bid is None or bid in seen:
+                    continue
+                seen.add(bid)
+                dflt += hf.blocks[bid].elems
+                work += [cb[bid]] if bid in cb else list(hf.blocks[bid].succs)
+            arms["default"] = dflt
+            firsts = [b for (b, en, op) in chain if not any(o is not b and o.id in dominators(hf, False)[b.id] for (o, _en, _op) in chain)]
+            sw = [firsts[0] if firsts else chain[0][0]]
+        sw = sw[0]
+        for si in range(len(sw.succs) if sw.term and sw.term.get("k") == "SwitchStmt" else 0):
             lab = sw.edge_label(si)
             if lab == "default":
                 arms["default"] = arm_elems(hf, sw, si)[0]
@@ -1024,15 +1086,25 @@ def r5(ctx, r):
         # text is validated as UTF-8 on the reassembled message before delivery
         hd = fnc(ctx, cls, "handleDataFrame", file)
         cb, src = delivered_source(hd, "_onTextMessage")
-        val = [e for e in hd.stmts() if e.node.get("k") == "mcall" and last(e.node.get("callee", "")) == "isValidUtf8"]
+        val = [e for e in hd.stmts() if e.node.get("k") in ("mcall", "call") and last(e.node.get("callee", "")) == "isValidUtf8"]
         r.instance()
         ok, why = False, "no isValidUtf8() call"
         if cb is not None and len(val) == 1:
-            recv = strip_casts(val[0].node.get("obj"))
-            why = "the validated object is `%s`" % show(recv)
+            recv = strip_casts(val[0].node.get("obj")) if val[0].node.get("k") == "mcall" else None
+            if recv is None:
+                # the range form isValidUtf8(P.data(), P.size()): the validated bytes are those of the local P
+                a_ = [strip_casts(x) for x in val[0].node.get("args", []) if not x.get("def")]
+                why = "the validated range is `%s`" % ", ".join(show(x) for x in a_)
+                ok = len(a_) == 2 and a_[0].get("k") == "mcall" and last(a_[0]["callee"]) == "data" and a_[1].get("k") == "mcall" and last(a_[1]["callee"]) == "size" and \
+                    all(strip_casts(x.get("obj")).get("k") == "var" and strip_casts(x["obj"])["n"] == src and strip_casts(x["obj"]).get("parm") is None for x in a_)
+                recv = {}
+            else:
+                why = "the validated object is `%s`" % show(recv)
             if recv.get("k") == "var":
                 pdefs = [asg(x.node)[1] for x in hd.stmts() if asg(x.node) and show(strip_casts(asg(x.node)[0])) == recv["n"] + ".payload"]
-                ok = len(pdefs) == 1 and key_of(strip_views(pdefs[0])) == src and recv.get("parm") is None
+                # either the validated frame holds a copy of the delivered local, or the delivered bytes are the validated frame's own payload
+                # (filled from something other than the frame just received)
+                ok = len(pdefs) == 1 and recv.get("parm") is None and (key_of(strip_views(pdefs[0])) == src or (recv["n"] == src and not any(x.get("k") == "var" and x.get("parm") is not None for x in walk(pdefs[0]))))
                 why = "the validated frame `%s` %s" % (recv["n"], "is the frame just received (the last fragment), not the reassembled message `%s`" % src if recv.get("parm") is not None else "does not hold the reassembled message `%s`" % src)
             if ok:
                 vb = val[0].block
@@ -1134,7 +1206,11 @@ class ParseLoop:
             for e in f.stmts():
                 a = asg(e.node)
                 if a and strip_casts(a[0]).get("k") == "var" and strip_casts(a[0])["d"] == self.L_d:
-                    srcs.add(alias_field(f, strip_views(a[1])))
+                    rv = strip_views(a[1])
+                    # `L = std::exchange(member, {})` takes the member's content like `L = std::move(member); member.clear()`
+                    if rv is not None and rv.get("k") == "call" and rv.get("callee") == "std::exchange" and rv.get("args"):
+                        rv = rv["args"][0]
+                    srcs.add(alias_field(f, rv))
                 if e.node.get("k") == "mcall" and last(e.node.get("callee", "")) == "swap" and e.node.get("args"):
                     o_, a_ = strip_casts(e.node["obj"]), strip_casts(e.node["args"][0])
                     for x, y in ((o_, a_), (a_, o_)):
@@ -1171,7 +1247,36 @@ def r6(ctx, r):
                 return c is not None and c.get("k") == "var" and c.get("d") == pl.frame_d
             fb_ = [b for b in f.blocks.values() if b.cond is not None and is_frame_test(common.branch(b)[0])]
             # (the side on which there is no frame never comes back to parse)
-            ok = ok and len(fb_) == 1 and common.branch(fb_[0])[2] is not None and search(f, ("block", common.branch(fb_[0])[2]), lambda x: x is ps[0], eh=False) is None
+            ok = ok and len(fb_) == 1 and common.branch(fb_[0])[2] is not None
+            if ok and search(f, ("block", common.branch(fb_[0])[2]), lambda x: x is ps[0], eh=False) is not None:
+                # structurally the no-frame side returns to the loop head (`needMore = true;` with `while (!needMore && …)` for `break`): decide
+                # with the bool locals as predicates whether parse() can be reached again once it has returned nullopt
+                bl = {v["d"]: "b:%s" % v["n"] for e in f.stmts() if e.node.get("k") == "decl" for v in e.node["vars"] if (v.get("t") or "").replace("const ", "").strip() == "bool"}
+                if len(bl) > 10:
+                    raise AnalysisBroken("%s: %d bool locals — too many to decide whether the loop ends on nullopt" % (last(f.name), len(bl)))
+                vocab = Vocab(["hf"] + sorted(set(bl.values())))
+
+                def leaf(n):
+                    if n.get("k") == "var" and n.get("d") in bl:
+                        return A(bl[n["d"]])
+                    return A("hf") if is_frame_test(n) else None
+
+                def effects(e):
+                    if e is ps[0]:
+                        return [("havoc", "hf")]
+                    if e.kind != "stmt":
+                        return None
+                    cands = [(v["d"], v.get("init")) for v in e.node["vars"]] if e.node.get("k") == "decl" else []
+                    if is_assign(e.node) and strip_casts(_ap(e.node)[0]).get("k") == "var":
+                        cands.append((strip_casts(_ap(e.node)[0])["d"], _ap(e.node)[2] if _ap(e.node)[1] == "=" else None))
+                    ops = []
+                    for d_, rhs in cands:
+                        if d_ in bl:
+                            cv = const_value(strip_casts(rhs)) if rhs is not None and strip_casts(rhs).get("k") in ("bool", "int") else None
+                            ops.append(("set", bl[d_], bool(cv)) if cv is not None else ("havoc", bl[d_]))
+                    return ops or None
+                pa = PredAbs(f, vocab, leaf, effects, init=A("hf"), eh=False)
+                ok = pa.entails(ps[0], A("hf"))
         r.expect(ok, f, adv[0] if adv else None, "%s consumption" % label, "the %s parse loop does not advance by exactly the `consumed` of the same parse() call over the view [offset, end), leaving on nullopt" % label,
                  okdesc="%s: view = [offset, end); offset += consumed; nullopt → leave" % label)
         # remainder put back in front of bytes that arrived meanwhile: the member ends up as L[off, end) ++ (what it holds now).  Two spellings:
@@ -1487,7 +1592,7 @@ class Reassembly:
         st = 0
         firsts = [b for b in self.dispatch if not any(o is not b and search(self.f, ("block", o.id), lambda y, b=b: y.block is b, eh=False) is not None for o in self.dispatch)]
         for b in firsts:
-            s_ = self.pa.flow.block_in.get(b.id)
+            s_ = self.pa.flow.at_block_end(b)       # (the delivered opcode may be defined in the very block that branches on it)
             if s_:
                 st |= s_
         return st, firsts
